@@ -184,4 +184,15 @@ def install(reg):
                  ("length", "len(result) == (old(self.remain) if (numbytes == -1 or numbytes > old(self.remain)) else numbytes)"),
                  ("peek-restores-position", "implies(not skip, self.file.pos == old(self.file.pos) and self.remain == old(self.remain))"),
                  ("consume-advances", "implies(skip, self.file.pos == old(self.file.pos) + len(result) and self.remain == old(self.remain) - len(result))")]))
+    # skip() is inherited from FileBasedBuffer: for the read-only buffer `remain` is the PREPARED size, not the rest of the file, so the
+    # inherited body must move the file forward by exactly numbytes (the channel calls skip() after every partial send of a file wrapper)
+    reg.add(FuncContract(ro + ".skip", params={"numbytes": Int, "allow_prune": Bool},
+        requires=[("prepared", "0 <= self.file.pos and 0 <= self.remain <= len(self.file.content) - self.file.pos"), ("numbytes-nonneg", "numbytes >= 0")],
+        raises=["ValueError"], raises_when=[("ValueError", "numbytes > self.remain")],
+        ensures=[("C17-file-advances-by-exactly-the-skipped-bytes", "self.file.pos == old(self.file.pos) + numbytes"),
+                 ("C17-prepared-size-shrinks-by-the-skipped-bytes", "self.remain == old(self.remain) - numbytes"),
+                 ("content-untouched", "self.file.content == old(self.file.content)")],
+        ensures_exc=[("unchanged-on-error", "self.file.pos == old(self.file.pos) and self.remain == old(self.remain)")],
+        modifies=["self.remain", "self.file.pos"]))
+    reg.funcs[ro + ".skip"].impl = "buffers.FileBasedBuffer.skip"
     reg.inline.update({"buffers.TempfileBasedBuffer.newfile", "buffers.BytesIOBasedBuffer.newfile", "buffers._is_seekable"})
